@@ -448,11 +448,45 @@ def preemption_chooser(order, preemptions):
     return choose
 
 
-def locks_left(store):
-    """Names of locked-identifier collections that are non-empty (heuristic introspection: any
-    list-like attribute whose name contains 'locked')."""
+def _identifiers_in(v, depth=0):
+    """Identifiers held in a collection; a dict whose values are themselves collections is a REGISTRY of such
+    collections (name -> list), not a set of identifiers: look inside."""
+    if hasattr(v, "values") and hasattr(v, "keys"):
+        vals = list(v.values())
+        if vals and depth < 2 and all(hasattr(x, "__len__") and not isinstance(x, (str, bytes)) for x in vals):
+            out = []
+            for x in vals:
+                out += _identifiers_in(x, depth + 1)
+            return out
+        return list(v.keys())
+    return list(v)
+
+
+def locked_collections(store, suffix=None):
+    """Name -> contents of every non-empty collection of locked identifiers of a store instance.  Heuristic
+    introspection that survives refactorings of the bookkeeping: any attribute - instance attribute OR class-level
+    property - whose name contains 'locked' and whose value is a sized iterable (list, set, dict, manager proxy)."""
+    names = set(vars(store))
+    for klass in type(store).__mro__:
+        for n, v in vars(klass).items():
+            if isinstance(v, property):
+                names.add(n)
     bad = {}
-    for n, v in vars(store).items():
-        if "locked" in n and isinstance(v, list) and len(v):
-            bad[n] = list(v)
+    for n in sorted(names):
+        if "locked" not in n or (suffix and not n.endswith(suffix)):
+            continue
+        try:
+            v = getattr(store, n)
+            if callable(v) or isinstance(v, (str, bytes)) or not hasattr(v, "__len__"):
+                continue
+            items = _identifiers_in(v)
+        except Exception as e:  # manager gone, property failing
+            items = [f"<unreadable: {type(e).__name__}>"] if suffix else []
+        if items:
+            bad[n] = [str(x) for x in items]
     return bad
+
+
+def locks_left(store):
+    """Names of locked-identifier collections that are non-empty."""
+    return locked_collections(store)
